@@ -225,6 +225,10 @@ def run(ctx):
     for i in range(9 if quick else 30):
         pattern = ('chain', 'mixed-sign', 'factor', 'near-dup', 'monotone')[i % 5]
         jobs.append((2, pattern, ('center', 'direct', 'regular')[i % 3], 1, ctx.seed * 32452843 + i, 1500 if quick else 6000))
+    # larger samples from strongly dependent, truncated vines (inverted probabilities reach the clamps): schema only
+    for i, sd in enumerate((314, 1022, 77) if quick else (314, 1022, 77, 5, 640, 911, 2048, 4001)):
+        for vt in ('center', 'direct', 'regular'):
+            jobs.append((6, 'against-trend', vt, 1, sd, 300))
     jobs.sort(key=lambda j: -j[5] * 10 - j[0])
     with Pool(16) as pool:
         log = pool.map(_observe, jobs, chunksize=1)
